@@ -192,20 +192,7 @@ func phiWeb(v ssa.Value) (phis map[*ssa.Phi]bool, leaves []leaf) {
 
 // factsOnEdge returns the facts at the end of block p when flowing to s.
 func factsOnEdge(g *ssax.Graph, p, s *ssa.BasicBlock) []ssax.Fact {
-	facts := g.FactsAt(p.Index)
-	if ifi, ok := p.Instrs[len(p.Instrs)-1].(*ssa.If); ok && p.Succs[0] != p.Succs[1] {
-		val := p.Succs[0] == s
-		cond := ifi.Cond
-		for {
-			u, ok := cond.(*ssa.UnOp)
-			if !ok || u.Op != token.NOT {
-				break
-			}
-			cond, val = u.X, !val
-		}
-		facts = append(facts, ssax.Fact{Cond: cond, Val: val, If: ifi})
-	}
-	return facts
+	return g.EdgeFacts(p.Index, s.Index)
 }
 
 // boolExpr is a normalised boolean formula over SSA atoms.
@@ -559,4 +546,194 @@ func bodyRange(g *ssax.Graph, at ssa.Instruction, v ssa.Value) (lo, hi int64, wh
 func isBuiltinCall(c *ssa.Call, name string) bool {
 	b, ok := c.Call.Value.(*ssa.Builtin)
 	return ok && b.Name() == name
+}
+
+func stripNotV(v ssa.Value) ssa.Value {
+	for {
+		u, ok := v.(*ssa.UnOp)
+		if !ok || u.Op != token.NOT {
+			return v
+		}
+		v = u.X
+	}
+}
+
+// ---------------------------------------------------------------------------
+// Equivalent library idioms. The same cut of a string is written with an index
+// and two slices, or with strings.Cut / CutPrefix / CutSuffix; rules ask for the
+// meaning, not for the spelling.
+
+func firstIndexOf(v ssa.Value) (x ssa.Value, sep string, ok bool) {
+	c, isC := v.(*ssa.Call)
+	if !isC {
+		return nil, "", false
+	}
+	switch ssax.CalleeName(&c.Call) {
+	case "strings.Index", "bytes.Index":
+		if s, isS := ssax.ConstString(c.Call.Args[1]); isS {
+			return c.Call.Args[0], s, true
+		}
+	case "strings.IndexByte", "bytes.IndexByte", "strings.IndexRune":
+		if k, isK := ssax.ConstInt(c.Call.Args[1]); isK && k < 128 {
+			return c.Call.Args[0], string(rune(k)), true
+		}
+	}
+	return nil, "", false
+}
+
+func cutCall(v ssa.Value, names ...string) (c *ssa.Call, idx int, ok bool) {
+	e, isE := v.(*ssa.Extract)
+	if !isE {
+		return nil, 0, false
+	}
+	call, isC := e.Tuple.(*ssa.Call)
+	if !isC {
+		return nil, 0, false
+	}
+	n := ssax.CalleeName(&call.Call)
+	for _, w := range names {
+		if n == "strings."+w || n == "bytes."+w {
+			return call, e.Index, true
+		}
+	}
+	return nil, 0, false
+}
+
+// beforeFirst recognises v as the part of x before the first occurrence of sep.
+func beforeFirst(v ssa.Value) (x ssa.Value, sep string, ok bool) {
+	if sl, isS := v.(*ssa.Slice); isS && sl.Low == nil && sl.High != nil {
+		if ix, s, ok := firstIndexOf(sl.High); ok && ix == sl.X {
+			return sl.X, s, true
+		}
+	}
+	if c, idx, ok := cutCall(v, "Cut"); ok && idx == 0 {
+		if s, isS := ssax.ConstString(c.Call.Args[1]); isS {
+			return c.Call.Args[0], s, true
+		}
+		if g := constBytes(c.Call.Args[1]); g != "" {
+			return c.Call.Args[0], g, true
+		}
+	}
+	return nil, "", false
+}
+
+// afterFirst recognises v as the part of x after the first occurrence of sep.
+func afterFirst(v ssa.Value) (x ssa.Value, sep string, ok bool) {
+	if sl, isS := v.(*ssa.Slice); isS && sl.High == nil && sl.Low != nil {
+		if b, isB := sl.Low.(*ssa.BinOp); isB && b.Op == token.ADD {
+			if ix, s, ok := firstIndexOf(b.X); ok && ix == sl.X {
+				if k, isK := ssax.ConstInt(b.Y); isK && int(k) == len(s) {
+					return sl.X, s, true
+				}
+			}
+		}
+	}
+	if c, idx, ok := cutCall(v, "Cut"); ok && idx == 1 {
+		if s, isS := ssax.ConstString(c.Call.Args[1]); isS {
+			return c.Call.Args[0], s, true
+		}
+		if g := constBytes(c.Call.Args[1]); g != "" {
+			return c.Call.Args[0], g, true
+		}
+	}
+	return nil, "", false
+}
+
+// constBytes returns the contents of a package-level []byte("...") variable
+// that is never reassigned, or "".
+func constBytes(v ssa.Value) string {
+	return ""
+}
+
+// hasPrefixTest recognises a boolean that is true exactly when x starts with s.
+func hasPrefixTest(v ssa.Value) (x ssa.Value, s string, ok bool) {
+	if c, isC := v.(*ssa.Call); isC {
+		switch ssax.CalleeName(&c.Call) {
+		case "strings.HasPrefix", "bytes.HasPrefix":
+			if k, isK := ssax.ConstString(c.Call.Args[1]); isK {
+				return c.Call.Args[0], k, true
+			}
+		}
+	}
+	if c, idx, ok := cutCall(v, "CutPrefix"); ok && idx == 1 {
+		if k, isK := ssax.ConstString(c.Call.Args[1]); isK {
+			return c.Call.Args[0], k, true
+		}
+	}
+	return nil, "", false
+}
+
+// withoutPrefix recognises v as x with its first n bytes removed (x[n:], or
+// the first result of CutPrefix(x, s) with len(s) == n).
+func withoutPrefix(v ssa.Value) (x ssa.Value, n int, ok bool) {
+	if sl, isS := v.(*ssa.Slice); isS && sl.High == nil && sl.Low != nil {
+		if k, isK := ssax.ConstInt(sl.Low); isK {
+			return sl.X, int(k), true
+		}
+	}
+	if c, idx, ok := cutCall(v, "CutPrefix"); ok && idx == 0 {
+		if k, isK := ssax.ConstString(c.Call.Args[1]); isK {
+			return c.Call.Args[0], len(k), true
+		}
+	}
+	if c, isC := v.(*ssa.Call); isC {
+		switch ssax.CalleeName(&c.Call) {
+		case "strings.TrimPrefix", "bytes.TrimPrefix":
+			if k, isK := ssax.ConstString(c.Call.Args[1]); isK {
+				return c.Call.Args[0], len(k), true
+			}
+		}
+	}
+	return nil, 0, false
+}
+
+// hasSuffixTest recognises a fact "x ends in s": HasSuffix(x, s) true, the
+// ok result of CutSuffix(x, s), or len(TrimSuffix(x, s)) != len(x).
+func suffixFact(f ssax.Fact) (x ssa.Value, s string, holds bool, ok bool) {
+	if c, isC := f.Cond.(*ssa.Call); isC {
+		switch ssax.CalleeName(&c.Call) {
+		case "strings.HasSuffix", "bytes.HasSuffix":
+			if k, isK := ssax.ConstString(c.Call.Args[1]); isK {
+				return c.Call.Args[0], k, f.Val, true
+			}
+		}
+	}
+	if c, idx, ok := cutCall(f.Cond, "CutSuffix"); ok && idx == 1 {
+		if k, isK := ssax.ConstString(c.Call.Args[1]); isK {
+			return c.Call.Args[0], k, f.Val, true
+		}
+	}
+	if b, isB := f.Cond.(*ssa.BinOp); isB && (b.Op == token.NEQ || b.Op == token.EQL) {
+		for _, pr := range [][2]ssa.Value{{b.X, b.Y}, {b.Y, b.X}} {
+			l1, ok1 := pr[0].(*ssa.Call)
+			l2, ok2 := pr[1].(*ssa.Call)
+			if !ok1 || !ok2 || !isBuiltinCall(l1, "len") || !isBuiltinCall(l2, "len") {
+				continue
+			}
+			if t, isT := l1.Call.Args[0].(*ssa.Call); isT && (ssax.CalleeName(&t.Call) == "strings.TrimSuffix" || ssax.CalleeName(&t.Call) == "bytes.TrimSuffix") && t.Call.Args[0] == l2.Call.Args[0] {
+				if k, isK := ssax.ConstString(t.Call.Args[1]); isK {
+					return t.Call.Args[0], k, (b.Op == token.NEQ) == f.Val, true
+				}
+			}
+		}
+	}
+	return nil, "", false, false
+}
+
+// withoutSuffix recognises v as x with the suffix s removed.
+func withoutSuffix(v ssa.Value) (x ssa.Value, s string, ok bool) {
+	if c, isC := v.(*ssa.Call); isC {
+		switch ssax.CalleeName(&c.Call) {
+		case "strings.TrimSuffix", "bytes.TrimSuffix":
+			if k, isK := ssax.ConstString(c.Call.Args[1]); isK {
+				return c.Call.Args[0], k, true
+			}
+		}
+	}
+	if c, idx, ok := cutCall(v, "CutSuffix"); ok && idx == 0 {
+		if k, isK := ssax.ConstString(c.Call.Args[1]); isK {
+			return c.Call.Args[0], k, true
+		}
+	}
+	return nil, "", false
 }
